@@ -169,4 +169,185 @@ theorem addBuffer_abs (s : St) (hd : s.dead = none) (hv : s.b0.valid = true) (hv
   rw [ha.1]
   exact writeAt_end _ _ _
 
+
+/-! ### alignment is preserved by the operations of the Buffer class -/
+
+/-- both counters of a buffer are multiples of the alignment -/
+def Buf.Aligned (b : Buf) : Prop := b.committed % 8 = 0 ∧ b.written % 8 = 0
+
+theorem aligned_mk (c : Nat) (m : Mode) (f : UInt8) : (Buf.mk' c m f).Aligned := by
+  simp [Buf.Aligned, Buf.mk', Buf.written]
+
+theorem chain_mem (c : Bytes) : ∀ (hs : List Hdr) (pos : Nat), Chain c pos hs →
+    ∀ h ∈ hs, h.off + h.psize ≤ c.length ∧ h.psize % 8 = 0
+  | [], _, _, h, hm => by cases hm
+  | x :: xs, pos, hc, h, hm => by
+    obtain ⟨ho, _, hp, _, hle, _, _, hc'⟩ := hc
+    rcases List.mem_cons.1 hm with rfl | hm'
+    · exact ⟨by omega, by rw [hp]; exact padded_mod _⟩
+    · exact chain_mem c xs _ hc' h hm'
+
+theorem nthItem_spec (c : Bytes) (k : Nat) (h : Hdr) (hn : nthItem c k = some h) :
+    h.off + h.psize ≤ c.length ∧ h.psize % 8 = 0 := by
+  unfold nthItem at hn
+  split at hn
+  · rename_i hs hh
+    have hc := headers_chain c _ _ _ hh
+    exact chain_mem c hs 0 hc h (List.mem_of_getElem? hn)
+  · cases hn
+
+theorem skipNonEntity_mod (b : Bytes) (lim fuel pos : Nat) (h : pos % 8 = 0) :
+    skipNonEntity b lim fuel pos % 8 = 0 := by
+  induction fuel generalizing pos with
+  | zero => exact h
+  | succ f ih =>
+    simp only [skipNonEntity]
+    split
+    · apply ih; have := padded_mod (u32At b pos); omega
+    · exact h
+
+theorem purgeLoop_w_mod (lim fuel : Nat) (b : Bytes) (r w : Nat) (cbs : List (Nat × Nat)) (hw : w % 8 = 0) :
+    (purgeLoop lim fuel b r w cbs).2.1 % 8 = 0 := by
+  induction fuel generalizing b r w cbs with
+  | zero => exact hw
+  | succ f ih =>
+    simp only [purgeLoop]
+    split
+    · exact hw
+    · split
+      · split
+        · apply ih
+          simp only []
+          have := padded_mod (u32At (writeAt b w (slice b r (padded (u32At b r)))) w)
+          omega
+        · apply ih
+          simp only []
+          have := padded_mod (u32At b w)
+          omega
+      · exact ih _ _ _ _ hw
+
+theorem reserve_committed (n : Nat) (b b' : Buf) (h : reserve n b = .ok b') :
+    b'.committed = b.committed ∨ b'.committed = 0 := by
+  unfold reserve at h
+  split at h
+  · split at h
+    · cases h
+    · injection h with h; subst h
+      simp only [extend, growFor, grow, growInternal]
+      split <;> split <;> (try split) <;> simp
+  · injection h with h; subst h; simp [extend]
+
+/-- reserving a multiple of 8 keeps both counters aligned -/
+theorem reserve_aligned (n : Nat) (b b' : Buf) (hb : b.Bounds) (ha : b.Aligned) (hn : n % 8 = 0)
+    (h : reserve n b = .ok b') : b'.Aligned := by
+  obtain ⟨g, hg, rfl, _⟩ := reserve_spec n b b' hb h
+  have hc := reserve_committed n b _ h
+  have hw := grown_written hg hb.1
+  have hgc := hg.comm
+  obtain ⟨a1, a2⟩ := ha
+  have hb1 := hb.1
+  simp only [Buf.Aligned, extend, Buf.written, List.length_append, List.length_replicate] at *
+  rcases hc with hc | hc <;> omega
+
+theorem execBufOp_aligned (s : St) (o : BufOp) (hs : s.Bounds) (h0 : s.b0.Aligned) (h1 : s.b1.Aligned) :
+    (execBufOp s o).1.b0.Aligned ∧ (execBufOp s o).1.b1.Aligned := by
+  obtain ⟨⟨c0, w0, _⟩, _⟩ := hs
+  obtain ⟨a0, a0'⟩ := h0
+  cases o <;> simp only [execBufOp]
+  · exact ⟨⟨a0', a0'⟩, h1⟩
+  · refine ⟨?_, h1⟩
+    simp only [Buf.Aligned, Buf.written, Buf.comm, List.length_take] at *; omega
+  · exact ⟨by simp [Buf.Aligned, Buf.written], h1⟩
+  · exact ⟨h1, ⟨a0, a0'⟩⟩
+  · exact ⟨⟨a0, a0'⟩, h1⟩
+  · refine ⟨?_, h1⟩
+    simp only [purgeBuf]
+    split
+    · exact ⟨a0, a0'⟩
+    · simp only [purgeBytes]
+      split
+      · simp only [Buf.Aligned, Buf.written, Buf.comm, List.length_take] at *; omega
+      · have hm := purgeLoop_w_mod s.b0.comm.length (s.b0.comm.length + 1) s.b0.comm
+          (skipNonEntity s.b0.comm s.b0.comm.length (s.b0.comm.length + 1) 0)
+          (skipNonEntity s.b0.comm s.b0.comm.length (s.b0.comm.length + 1) 0) []
+          (skipNonEntity_mod _ _ _ 0 rfl)
+        have hl := purgeLoop_length s.b0.comm.length (s.b0.comm.length + 1) s.b0.comm
+          (skipNonEntity s.b0.comm s.b0.comm.length (s.b0.comm.length + 1) 0)
+          (skipNonEntity s.b0.comm s.b0.comm.length (s.b0.comm.length + 1) 0) []
+        generalize purgeLoop s.b0.comm.length (s.b0.comm.length + 1) s.b0.comm _ _ [] = r at hm hl
+        obtain ⟨b', w, cbs⟩ := r
+        simp only [Buf.Aligned, Buf.written, Buf.comm, List.length_take] at *
+        omega
+  · exact ⟨⟨a0, a0'⟩, h1⟩
+  · refine ⟨?_, h1⟩
+    simp only [Buf.Aligned, Buf.written, Buf.comm, Buf.pend, List.length_append, flagWord_length, List.length_take, List.length_drop] at *
+    omega
+
+/-- a single `reserve n; copy` program (add_buffer / push_back) with n a multiple of 8 -/
+theorem runCopy_aligned (s : St) (d : Bytes) (a : After) (ha' : a = .nothing ∨ a = .commit) (he : s.stack = [])
+    (hs : s.Bounds) (h0 : s.b0.Aligned) (hd : d.length % 8 = 0) :
+    (runMicros s [.alloc (fun _ => d.length) false (fun off p => writeAt p off d)] (applyAfter a)).1.b0.Aligned ∧
+    (runMicros s [.alloc (fun _ => d.length) false (fun off p => writeAt p off d)] (applyAfter a)).1.b1 = s.b1 := by
+  simp only [runMicros, execMicros, execMicro]
+  cases hr : reserve d.length s.b0 with
+  | error e =>
+    cases e <;> simp [unwind, he, h0]
+  | ok b' =>
+    have hal := reserve_aligned _ _ _ hs.1 h0 hd hr
+    obtain ⟨g, hg, hb', _⟩ := reserve_spec _ _ _ hs.1 hr
+    have hcw : b'.committed ≤ b'.written := by
+      subst hb'; have := hg.comm; simp only [extend, Buf.written, List.length_append] at *; omega
+    have hw := onPend_written (fun p => writeAt p s.b0.pend.length d) b' (by intro p; simp) hcw
+    simp only [Bool.false_eq_true, ↓reduceIte]
+    rcases ha' with rfl | rfl
+    · simp only [applyAfter, and_true]
+      exact ⟨hal.1, by rw [hw]; exact hal.2⟩
+    · simp only [applyAfter, and_true]
+      simp only [Buf.Aligned, Buf.written] at hal hw ⊢
+      exact ⟨by rw [hw]; exact hal.2, by rw [hw]; exact hal.2⟩
+
+/-- operations of the Buffer class (no builder open) -/
+def BufferOp : Op → Bool
+  | .commit | .rollback | .clear | .addBuffer | .pushBack _ | .swap | .move | .setRm _ _ | .purge | .popNested => true
+  | _ => false
+
+/-- with no builder open, the only micro programs of the Buffer-level operations are copies of a
+    multiple of 8 bytes out of the other buffer -/
+theorem plan_bufferop_micros (pl : Nat) (aux : Bytes) (av : Bool) (c : Bytes) (op : Op) (ms : List Micro) (a : After)
+    (hop : BufferOp op = true) (haux : aux.length % 8 = 0) (hp : plan [] pl aux av c op = .micros ms a) :
+    ∃ d : Bytes, d.length % 8 = 0 ∧ ms = [.alloc (fun _ => d.length) false (fun off p => writeAt p off d)] ∧
+      (a = .nothing ∨ a = .commit) := by
+  cases op <;> simp only [BufferOp] at hop <;> try (exact absurd hop (by decide))
+  all_goals simp only [plan, List.map_nil, List.isEmpty_nil, Bool.not_true, Bool.false_eq_true, false_or, ↓reduceIte] at hp
+  all_goals (repeat' split at hp)
+  all_goals first
+    | (cases hp; done)
+    | skip
+  · injection hp with h1 h2
+    exact ⟨aux, haux, h1.symm, Or.inl h2.symm⟩
+  · rename_i h hn
+    injection hp with h1 h2
+    have hsp := nthItem_spec _ _ _ hn
+    exact ⟨slice aux h.off h.psize, by rw [slice_length _ _ _ hsp.1]; exact hsp.2, h1.symm, Or.inr h2.symm⟩
+
+theorem step_aligned_bufferop (s : St) (op : Op) (hop : BufferOp op = true) (he : s.stack = []) (hs : s.Bounds)
+    (h0 : s.b0.Aligned) (h1 : s.b1.Aligned) : (step s op).1.b0.Aligned ∧ (step s op).1.b1.Aligned := by
+  have hcomm1 : s.b1.comm.length % 8 = 0 := by
+    have := hs.2.1; have := h1.1
+    simp only [Buf.comm, Buf.written, List.length_take] at *; omega
+  simp only [step]
+  split
+  · exact ⟨h0, h1⟩
+  · split
+    · exact ⟨h0, h1⟩
+    · split
+      · exact ⟨h0, h1⟩
+      · exact ⟨h0, h1⟩
+      · rename_i ms a hp
+        rw [he] at hp
+        obtain ⟨d, hd, rfl, ha⟩ := plan_bufferop_micros _ _ _ _ _ _ _ hop hcomm1 hp
+        have := runCopy_aligned s d a ha he hs h0 hd
+        exact ⟨this.1, by rw [this.2]; exact h1⟩
+      · exact execBufOp_aligned s _ hs h0 h1
+
 end Osmium.Buf
